@@ -24,12 +24,15 @@ import (
 	"io"
 	"net"
 	"net/http"
+	"strings"
 	"sync"
 	"testing"
 	"time"
 
+	"github.com/megaease/easegress/pkg/context"
 	"github.com/megaease/easegress/pkg/context/contexttest"
 	"github.com/megaease/easegress/pkg/logger"
+	"github.com/megaease/easegress/pkg/protocols/httpprot"
 	"github.com/megaease/easegress/pkg/supervisor"
 	vx "github.com/megaease/easegress/pkg/verifx"
 )
@@ -124,6 +127,14 @@ type c17Client struct {
 	done   chan struct{} // first exchange finished (served or failed)
 	served bool
 	hung   bool
+
+	// slow clients: the request goes to a handler that blocks until the harness lets it return; the
+	// connection counts as open from the handler's entry (it was accepted before) to just before its
+	// return (it is closed after).  The client half-closes right after sending the request.
+	slow     bool
+	entered  chan struct{}
+	gate     chan struct{}
+	released bool
 }
 
 type c17Env struct {
@@ -137,6 +148,36 @@ type c17Env struct {
 
 	lastCap int
 	pending []c17Resize // cap changes whose completion has not been logged yet
+
+	smu  sync.Mutex
+	slow map[string]*c17Client
+}
+
+// mapper routes /slow/<p> to the blocking handler.
+func (e *c17Env) mapper() context.MuxMapper {
+	return &contexttest.MockedMuxMapper{MockedGetHandler: func(name string) (context.Handler, bool) {
+		return &contexttest.MockedHandler{MockedHandle: func(ctx *context.Context) string {
+			req, ok := ctx.GetRequest(context.DefaultNamespace).(*httpprot.Request)
+			if !ok {
+				return ""
+			}
+			p := strings.TrimPrefix(req.Path(), "/slow/")
+			e.smu.Lock()
+			c := e.slow[p]
+			e.smu.Unlock()
+			if c == nil {
+				return ""
+			}
+			e.g.acc(p) // this connection is being served: it is open
+			close(c.entered)
+			select {
+			case <-c.gate:
+			case <-time.After(90 * time.Second):
+			}
+			e.g.closing() // before the handler returns (the server closes the connection after)
+			return ""
+		}}, true
+	}}
 }
 
 type c17Resize struct{ id, n, from int }
@@ -159,6 +200,10 @@ keepAlive: true
 keepAliveTimeout: 600s
 https: false
 maxConnections: %d
+rules:
+- paths:
+  - pathPrefix: /slow/
+    backend: c17slow
 `, e.port, maxc)
 	ss, err := supervisor.NewSpec(y)
 	if err != nil {
@@ -168,10 +213,10 @@ maxConnections: %d
 }
 
 func c17Start(t *testing.T, g *c17SLog, cap0 int, settle time.Duration, meta vx.M) *c17Env {
-	e := &c17Env{t: t, g: g, port: c17FreePort(), settle: settle, lastCap: cap0}
+	e := &c17Env{t: t, g: g, port: c17FreePort(), settle: settle, lastCap: cap0, slow: map[string]*c17Client{}}
 	g.reset(cap0, meta)
 	e.hs = &HTTPServer{}
-	e.hs.Init(e.spec(cap0), &contexttest.MockedMuxMapper{})
+	e.hs.Init(e.spec(cap0), e.mapper())
 	deadline := time.Now().Add(20 * time.Second)
 	for e.hs.runtime.getState() != stateRunning || e.hs.runtime.getError().Error() != "" {
 		if time.Now().After(deadline) {
@@ -186,7 +231,7 @@ func c17Start(t *testing.T, g *c17SLog, cap0 int, settle time.Duration, meta vx.
 func (e *c17Env) reload(n int) {
 	id := e.g.rz(n)
 	next := &HTTPServer{}
-	next.Inherit(e.spec(n), e.hs, &contexttest.MockedMuxMapper{})
+	next.Inherit(e.spec(n), e.hs, e.mapper())
 	e.hs = next
 	for i := 0; i < 20000 && len(e.hs.runtime.eventChan) > 0; i++ {
 		time.Sleep(100 * time.Microsecond)
@@ -262,7 +307,77 @@ func (e *c17Env) dial() *c17Client {
 	return c
 }
 
+// dialSlow starts a client whose request blocks in the handler and which half-closes after sending it.
+func (e *c17Env) dialSlow() *c17Client {
+	e.nc++
+	c := &c17Client{p: fmt.Sprintf("s%d", e.nc), done: make(chan struct{}), slow: true,
+		entered: make(chan struct{}), gate: make(chan struct{})}
+	e.smu.Lock()
+	e.slow[c.p] = c
+	e.smu.Unlock()
+	e.all = append(e.all, c)
+	e.g.accInv(c.p)
+	conn, err := net.DialTimeout("tcp", fmt.Sprintf("127.0.0.1:%d", e.port), 10*time.Second)
+	if err != nil {
+		e.g.accErr(c.p)
+		close(c.done)
+		return c
+	}
+	c.conn = conn
+	go func() {
+		defer close(c.done)
+		conn.SetDeadline(time.Now().Add(120 * time.Second))
+		io.WriteString(conn, "GET /slow/"+c.p+" HTTP/1.1\r\nHost: c17\r\n\r\n")
+		if tc, ok := conn.(*net.TCPConn); ok {
+			tc.CloseWrite() // the peer has finished; the connection is still being served
+		}
+		io.Copy(io.Discard, conn)
+	}()
+	return c
+}
+
+func (c *c17Client) isEntered() bool {
+	select {
+	case <-c.entered:
+		return true
+	default:
+		return false
+	}
+}
+
+// release lets the handler of a slow client return.
+func (e *c17Env) release(c *c17Client) {
+	if c.slow && !c.released {
+		c.released = true
+		close(c.gate)
+	}
+}
+
+// expectEntered: n of the slow clients must reach their handler (generous deadline); logs stuck otherwise.
+func (e *c17Env) expectEntered(cs []*c17Client, n int) bool {
+	deadline := time.Now().Add(20 * time.Second)
+	for {
+		k := 0
+		for _, c := range cs {
+			if c.isEntered() {
+				k++
+			}
+		}
+		if k >= n {
+			return true
+		}
+		if time.Now().After(deadline) {
+			e.g.stuck(e.openNow())
+			return false
+		}
+		time.Sleep(500 * time.Microsecond)
+	}
+}
+
 func (c *c17Client) isServed() bool {
+	if c.slow {
+		return false
+	}
 	select {
 	case <-c.done:
 		return c.served
@@ -295,6 +410,9 @@ func (e *c17Env) openNow() int {
 	k := 0
 	for _, c := range e.all {
 		if c.isServed() && !c.hung {
+			k++
+		}
+		if c.slow && c.isEntered() && !c.released {
 			k++
 		}
 	}
@@ -341,6 +459,7 @@ func (e *c17Env) finish() {
 	for {
 		pending := 0
 		for _, c := range e.all {
+			e.release(c)
 			select {
 			case <-c.done:
 				e.hangup(c)
@@ -459,6 +578,23 @@ func TestVerifC17Server(t *testing.T) {
 			time.Sleep(hold)
 			e.again()
 			_ = waiting // served only after enough of the others have hung up (finish)
+			e.finish()
+		}
+		// S6: the peer finishes its stream while the handler still serves the connection: the connection is open
+		// and keeps its slot until the server closes it; a further client is held back
+		for _, c0 := range []int{1, 2} {
+			e := c17Start(t, g, c0, settle, vx.M{"scenario": "slow-handler-half-close", "round": round})
+			var cs []*c17Client
+			for i := 0; i < c0; i++ {
+				cs = append(cs, e.dialSlow())
+			}
+			e.expectEntered(cs, c0)
+			x := e.dialSlow()
+			time.Sleep(hold + 100*time.Millisecond) // if x reaches its handler now, the log shows it (TLC judges)
+			for _, c := range cs {
+				e.release(c)
+			}
+			e.expectEntered([]*c17Client{x}, 1)
 			e.finish()
 		}
 		// S5: churn: clients come and go while the cap is changed a few times
